@@ -1,16 +1,16 @@
 #!/bin/bash
 # usage: tools/try_seed.sh <patch.diff> [tier] [Cxx ...]
-# applies a seeded change to /repo's working tree, runs the baseline suite and the given checks
-# (default: all, quick), prints the verdicts, and restores /repo.
-patch=$1; tier=${2:-quick}; shift; shift
+# applies a seeded change to a scratch worktree of /repo's HEAD (outside /repo and /verif), runs the
+# baseline suite and the given checks (default: all, quick) against it, prints the verdicts, removes it.
+patch=$(readlink -f "$1"); tier=${2:-quick}; shift; shift
 props=${@:-C01 C02 C03 C04 C05 C06 C07 C08 C09 C10 C11 C12 C13 C14 C15 C16 C17 C18 C19}
 cd "$(dirname "$0")/.."
-if [ -n "$(git -C /repo status --porcelain)" ]; then echo "refusing: /repo is dirty"; exit 2; fi
-git -C /repo apply "$patch" || { echo "patch does not apply"; exit 2; }
-trap 'git -C /repo checkout -- . ; git -C /repo clean -fdq' EXIT
-echo "== baseline with the change:"; python3 tools/baseline.py | head -5
+wt=/tmp/vtry.$$/wt; mkdir -p /tmp/vtry.$$/out
+git -C /repo worktree add -q --detach $wt HEAD || exit 2
+trap 'git -C /repo worktree remove --force '$wt'; rm -rf /tmp/vtry.'$$'; git -C /repo worktree prune' EXIT
+git -C $wt apply "$patch" || { echo "patch does not apply"; exit 2; }
+echo "== baseline with the change:"; BASELINE_REPO=$wt python3 tools/baseline.py | head -5
 for p in $props; do
-  out=$(./check $p $tier 2>&1); rc=$?
+  out=$(VERIF_REPO=$wt VERIF_OUT=/tmp/vtry.$$/out ./check $p $tier 2>&1); rc=$?
   echo "$p rc=$rc $(echo "$out" | grep -c '^VIOLATION') violation lines | $(echo "$out" | grep -m1 'violation\[' | cut -c1-220)"
 done
-git -C /verif checkout -- evidence 2>/dev/null
